@@ -34,11 +34,16 @@ def _plan(tier, seed):
                 b_["opts"][k] = 2 * b_["opts"][k]
         p["cases"] += [a_, b_]
         jobs.append({"name": "c10-nest-" + topo, "module": "vmon.jobs.ladder", "args": {"mode": "nest_y", "cases": [a_, b_], "cls": "ny doubling"}, "timeout": 900})
+        # the same with the number of guard cells kept: the normalisation count of the spacing functions
+        # (N_norm_prefactor * total ny between the targets) must double exactly
+        c_ = cases.tok(topo, tag="c10-ny-guards2-%s" % topo, guards=2, **kw)
+        p["cases"] += [c_]
+        jobs.append({"name": "c10-nest-sameguards-" + topo, "module": "vmon.jobs.ladder", "args": {"mode": "nest_y", "cases": [c_, b_], "cls": "ny doubling, guard cells kept"}, "timeout": 900})
     p["jobs"] = jobs
     return p
 
 
 def required(tier, classes, records):
     pats = [(c, "^" + c.replace(".", r"\.") + "$") for c in ("monotonic", "sqrt:wall.X", "sqrt:X.wall", "sqrt:X.X", "sqrt:wall.wall", "linear")]
-    pats += [("guarded sqrt", "guarded:sqrt"), ("guarded monotonic", "guarded:monotonic"), ("guarded linear", "guarded:linear"), ("guarded wall.wall", r"guarded:.*:wall\.wall"), ("guarded X.X", r"guarded:.*:X\.X"), ("ny doubling", r"ny doubling")]
+    pats += [("guarded sqrt", "guarded:sqrt"), ("guarded monotonic", "guarded:monotonic"), ("guarded linear", "guarded:linear"), ("guarded wall.wall", r"guarded:.*:wall\.wall"), ("guarded X.X", r"guarded:.*:X\.X"), ("ny doubling", r"^ny doubling$"), ("ny doubling with the guard cells kept", r"^ny doubling, guard cells kept$")]
     return need_classes(classes, pats)
